@@ -288,6 +288,8 @@ struct Shared {
     pongs: Vec<u64>,
     close_at: Option<u64>,
     other_sent: u64,
+    peer_pings_given: u64,
+    pongs_sent: u64,
 }
 
 struct ScriptWs {
@@ -297,6 +299,8 @@ struct ScriptWs {
     nping: usize,
     /// arrival times (ms since start) of pongs on their way, sorted
     pending: Vec<u64>,
+    /// arrival times of `Ping` messages the peer sends on its own (its keepalive), sorted
+    peer_pings: Vec<u64>,
     sleep: Option<Pin<Box<Sleep>>>,
     waker: Option<Waker>,
     closed: bool,
@@ -328,7 +332,9 @@ impl WebSocket for ScriptWs {
                 }
             }
         } else {
-            self.shared.lock().expect("lock").other_sent += 1;
+            let mut sh = self.shared.lock().expect("lock");
+            sh.other_sent += 1;
+            if matches!(item, Message::Pong) { sh.pongs_sent += 1; }
         }
         Ok(())
     }
@@ -359,14 +365,25 @@ impl WebSocket for ScriptWs {
         }
         loop {
             let now = self.ms();
-            let Some(&due) = self.pending.first() else {
-                self.waker = Some(cx.waker().clone());
-                return Poll::Pending;
+            // the peer's own pings say nothing about our pings being answered
+            let pp = self.peer_pings.first().copied();
+            let due = match (self.pending.first().copied(), pp) {
+                (None, None) => {
+                    self.waker = Some(cx.waker().clone());
+                    return Poll::Pending;
+                }
+                (Some(a), Some(b)) => a.min(b),
+                (Some(a), None) | (None, Some(a)) => a,
             };
             if due <= now {
-                self.pending.remove(0);
-                self.shared.lock().expect("lock").pongs.push(now);
-                return Poll::Ready(Some(Ok(Message::Pong)));
+                if self.pending.first() == Some(&due) {
+                    self.pending.remove(0);
+                    self.shared.lock().expect("lock").pongs.push(now);
+                    return Poll::Ready(Some(Ok(Message::Pong)));
+                }
+                self.peer_pings.remove(0);
+                self.shared.lock().expect("lock").peer_pings_given += 1;
+                return Poll::Ready(Some(Ok(Message::Ping)));
             }
             let deadline = self.start + Duration::from_millis(due);
             match &mut self.sleep {
@@ -394,6 +411,9 @@ struct Case {
     rest: Option<u64>,
     /// unsolicited pongs (arrival times)
     extra: Vec<u64>,
+    /// pings the peer sends on its own (arrival times): the endpoint answers them, they do not count
+    /// as answers to its own pings
+    pp: Vec<u64>,
     horizon: u64,
     /// the transport stays silent after the endpoint closed it (instead of completing the close)
     silent: bool,
@@ -418,11 +438,12 @@ fn csv(v: &[u64]) -> String {
 impl Case {
     fn line(&self) -> String {
         format!(
-            "case calls={} delays={} rest={} extra={} h={} silent={}",
+            "case calls={} delays={} rest={} extra={} pp={} h={} silent={}",
             calls_line(&self.calls),
             delays_tok(&self.delays),
             od_tok(self.rest),
             csv(&self.extra),
+            csv(&self.pp),
             self.horizon,
             u8::from(self.silent)
         )
@@ -432,7 +453,7 @@ impl Case {
         if it.next()? != "case" {
             return None;
         }
-        let mut c = Self { calls: vec![], delays: vec![], rest: None, extra: vec![], horizon: 0, silent: false };
+        let mut c = Self { calls: vec![], delays: vec![], rest: None, extra: vec![], pp: vec![], horizon: 0, silent: false };
         for kv in it {
             let (k, v) = kv.split_once('=')?;
             match k {
@@ -440,6 +461,7 @@ impl Case {
                 "delays" => c.delays = parse_delays(v)?,
                 "rest" => c.rest = parse_od(v)?,
                 "extra" => c.extra = if v == "-" { vec![] } else { v.split(',').map(|d| d.parse().ok()).collect::<Option<Vec<_>>>()? },
+                "pp" => c.pp = if v == "-" { vec![] } else { v.split(',').map(|d| d.parse().ok()).collect::<Option<Vec<_>>>()? },
                 "h" => c.horizon = v.parse().ok()?,
                 "silent" => c.silent = v == "1",
                 _ => return None,
@@ -484,8 +506,11 @@ fn run_real(case: &Case) -> Result<Obs, String> {
             let start = Instant::now();
             let mut pending = case2.extra.clone();
             pending.sort_unstable();
+            let mut peer_pings = case2.pp.clone();
+            peer_pings.sort_unstable();
             let ws = ScriptWs {
                 start,
+                peer_pings,
                 delays: case2.delays.clone(),
                 rest: case2.rest,
                 nping: 0,
@@ -745,7 +770,13 @@ fn gen_case(r: &mut Rng) -> Case {
     }
     .min(80);
     let horizon = ticks * iv + 1;
-    Case { calls, delays, rest, extra, horizon, silent: r.chance(1, 16) }
+    // a peer with its own keepalive (or an intermediary that pings): regularly, or at random times
+    let pp: Vec<u64> = match r.below(8) {
+        0 => { let per = (*r.pick(&[iv / 2, iv, tv / 2, tv])).max(1); let off = r.range(0, per); (0..).map(|k| off + k * per).take_while(|t| *t < horizon).take(400).collect() }
+        1 => (0..r.range(1, 6)).map(|_| r.range(0, horizon)).collect(),
+        _ => vec![],
+    };
+    Case { calls, delays, rest, extra, pp, horizon, silent: r.chance(1, 16) }
 }
 
 fn gen_builder_seq(r: &mut Rng) -> Vec<Setter> {
@@ -964,6 +995,9 @@ fn shrink_case(c: &Case, key: String, why: String) -> (Case, String, String) {
     if !cur.extra.is_empty() && same(&Case { extra: vec![], ..cur.clone() }) {
         cur.extra = vec![];
     }
+    if !cur.pp.is_empty() && same(&Case { pp: vec![], ..cur.clone() }) {
+        cur.pp = vec![];
+    }
     while !cur.delays.is_empty() {
         let mut d = cur.delays.clone();
         let last = d.pop().expect("non-empty");
@@ -1160,17 +1194,20 @@ enabled and at least two ticks inside the horizon; distinct by content";
                     (vec![], None),
                     (vec![], Some(tv + 1)),
                 ] {
-                    grid.push(Case { calls: calls.clone(), delays, rest, extra: vec![], horizon: (tv / iv + 9) * iv + 1, silent: false });
+                    grid.push(Case { calls: calls.clone(), delays, rest, extra: vec![], pp: vec![], horizon: (tv / iv + 9) * iv + 1, silent: false });
                 }
             }
         }
     }
     // disabled, zero interval, transport silent after close
-    grid.push(Case { calls: vec![], delays: vec![], rest: Some(0), extra: vec![5], horizon: 60_001, silent: false });
-    grid.push(Case { calls: vec![Setter::T(Some(5))], delays: vec![], rest: None, extra: vec![], horizon: 60_001, silent: false });
-    grid.push(Case { calls: vec![Setter::I(Some(10)), Setter::I(None)], delays: vec![], rest: None, extra: vec![], horizon: 601, silent: false });
-    grid.push(Case { calls: vec![Setter::I(Some(0)), Setter::T(Some(5))], delays: vec![], rest: None, extra: vec![], horizon: 101, silent: false });
-    grid.push(Case { calls: vec![Setter::I(Some(1000)), Setter::T(Some(2000))], delays: vec![], rest: None, extra: vec![], horizon: 20_001, silent: true });
+    grid.push(Case { calls: vec![], delays: vec![], rest: Some(0), extra: vec![5], pp: vec![], horizon: 60_001, silent: false });
+    grid.push(Case { calls: vec![Setter::T(Some(5))], delays: vec![], rest: None, extra: vec![], pp: vec![], horizon: 60_001, silent: false });
+    grid.push(Case { calls: vec![Setter::I(Some(10)), Setter::I(None)], delays: vec![], rest: None, extra: vec![], pp: vec![], horizon: 601, silent: false });
+    grid.push(Case { calls: vec![Setter::I(Some(0)), Setter::T(Some(5))], delays: vec![], rest: None, extra: vec![], pp: vec![], horizon: 101, silent: false });
+    grid.push(Case { calls: vec![Setter::I(Some(1000)), Setter::T(Some(2000))], delays: vec![], rest: None, extra: vec![], pp: vec![], horizon: 20_001, silent: true });
+    // a peer that keeps pinging but never answers (link dead in one direction, or a pinging intermediary)
+    grid.push(Case { calls: vec![Setter::I(Some(1000)), Setter::T(Some(2000))], delays: vec![], rest: None, extra: vec![], pp: (0..40).map(|k| 250 + k * 500).collect(), horizon: 20_001, silent: false });
+    grid.push(Case { calls: vec![Setter::I(Some(1000)), Setter::T(Some(3000))], delays: vec![Some(10), Some(10)], rest: None, extra: vec![], pp: (0..40).map(|k| k * 1000).collect(), horizon: 20_001, silent: false });
     cx.run_batch(&grid, "grid", threads);
 
     let mut rr = rng.fork(2);
